@@ -209,6 +209,7 @@ func (m *BlockManager) processRequest(ctx context.Context, request *downloadRequ
 
 	// Wait for a download to complete and send new block requests as necessary.
 	for {
+		simYield("BlockManager.processRequest before select")
 		select {
 		case <-time.After(m.blockRequestDelay): // most blocks finish within 5 seconds
 			downloaders := m.Downloaders(request.hash)
@@ -388,6 +389,7 @@ type downloadFinisher struct {
 }
 
 func (c *downloadFinisher) onDownloaderCompleted(ctx context.Context, err error) {
+	simYield("BlockManager.onDownloaderCompleted entry")
 	hash := c.downloader.Hash()
 	ctx = logger.ContextWithLogFields(ctx,
 		logger.Stringer("connection", c.downloader.RequesterID()),
